@@ -537,7 +537,8 @@ pub fn run(ctx: &Ctx) -> anyhow::Result<Report> {
 		}
 	}
 
-	r.shard_size = (r.cases.len() / 16 + 1).max(50);
+	// coqc needs ~0.7 GB per 200 cases of this size and 16 shards are checked in parallel
+	r.shard_size = (r.cases.len() / 16 + 1).clamp(50, 200);
 	Ok(r)
 }
 
